@@ -65,7 +65,7 @@ type storeRun struct {
 	chain   []*vhdr.Header
 	byHash  map[string]uint64
 	calls   []hcall
-	scripts []map[int]byte // per handler: call index -> 'e' | 'p'
+	scripts []map[int]byte // per handler: call index -> 'e' | 'p' | 'n'
 	counts  []int
 	stopped bool
 }
@@ -118,6 +118,8 @@ func (r *storeRun) register(i int) {
 			return errors.New("scripted handler error")
 		case 'p':
 			panic("scripted handler panic")
+		case 'n': // the handler's own bookkeeping lives in a datastore too: its error wraps datastore.ErrNotFound
+			return fmt.Errorf("scripted handler: my record for %d: %w", height, ds.ErrNotFound)
 		}
 		return nil
 	})
